@@ -41,6 +41,13 @@ CLAIMED["C04"] = ("jaxpr->SMT (z3) of jax.vjp(run_fdtd) under the reversible cus
                   "bounded SMT verification: the gradients w.r.t. inverse permittivity and inverse permeability at every cell outside the absorbing layers are identical linear forms in the cotangent (hence equal for any scalar function of the detector outputs) for every number of reversible checkpoints; conductive scene with a checkpoint at every step",
                   "reals for floats; primal materials seeded exact rationals; T <= 5, 3x3x6 with z-PML and 3x2x4 periodic; dipole + plane sources; field/energy/Poynting/phasor detectors", "4/C04")
 
+CLAIMED["C16"] = ("jaxpr->SMT (z3) of every detector's update driven directly with symbolic E, H, inverse materials and accumulated state",
+                  "bounded SMT verification: reduced field/phasor/energy records equal the volume-weighted mean/sum of the spatial records, reduced Poynting flux equals the area-weighted sum, the minus direction negates, single component equals the propagation component of the all-component record, closed surface equals the signed sum of six face detectors, inverse phasor detectors subtract what forward ones add -- for all real field values and positive inverse materials, with oracle weights computed in the harness from the grid widths",
+                  "reals for floats; regions <= 4x3x3 on dyadic uniform/non-uniform grids (exact weight arithmetic) plus a non-dyadic tolerance case; 3x3 tensor energy, as_slices, mode/diffractive/projection detectors out of scope", "4/C16")
+CLAIMED["C17"] = ("jaxpr->SMT (z3) of PhasorDetector.update iterated over all steps with fresh symbolic fields; tolerance queries against a harness-side windowed DFT",
+                  "bounded SMT verification: the accumulated phasor equals scale * sum_t w(t) f_t e^{i w t} (every stride incl. auto, scaling mode, window none/Gaussian/Tukey, switch, component subset, frequency set) within 1e-6 relative for all fields in [-1,1]; phasor Poynting detectors return (1/2 in continuous mode) sum area * Re(E x H*) of those phasors exactly",
+                  "reals for floats; T <= 24; tolerance 1e-6 because the code keeps the window table in float32; cos/sin tables computed in the harness", "4/C17")
+
 NOT_APPLICABLE = {
     "C12": "numerical accuracy bound (1e-6 residual energy after >=1e3 steps on >=40^3 cells in floating point); no algebraic identity, far beyond any bounded real-arithmetic encoding",
     "C13": "1e-3 power-ratio bound after hundreds of steps (TFSF leakage is small but non-zero by design); not an identity, out of reach for bounded real arithmetic",
